@@ -411,7 +411,7 @@ Proof.
   intros [Hc Hnf Hnh Hflr Hheld Hdisj Hdet Huniq Hcov Hloc] Ht Hfree.
   destruct (Hloc t _ Ht) as [Hnn Hnx].
   destruct fl as [|x fl']; cbn [chain] in Hc; [congruence|].
-  destruct Hc as [Ex Hc]. assert (x = ke) by congruence. subst x.
+  destruct Hc as [Ex Hc]. rewrite Hfree in Ex. subst x.
   specialize (Hnx (or_introl eq_refl)). rewrite Hnx in Hc.
   apply NoDup_cons_iff in Hnf. destruct Hnf as [Hkn Hnf].
   exists fl'. constructor; cbn [ks held threads knext kfree].
